@@ -141,10 +141,19 @@ def run_case(case, tier):
         recs = cluster_cutout(rng)
     else:
         recs, _ = sources.chimera(rng)
+    multi_ = case["kind"] == "cutout" and rng.random() < 0.15 and not any(r.raw is None and r.icode != " " for r in recs)
+    if multi_:
+        # several models / alternate locations of the cluster, with mutants and missing pieces: a pair may be coupled
+        # in one conformation and not (or not exist) in another - every conformation keeps its own marks
+        from .. import multiconf
+        # (protein atoms only: jittered copies of large fused-ring ligands send the package's ring search into
+        # exponential time)
+        recs, _dm = multiconf.build(rng, base=[r for r in sources.no_water(recs) if r.raw is not None or r.tag == "ATOM  "])
+        classes.append("conformations-that-differ")
     extra = []
     if case["kind"] != "file" or case.get("variant"):
         u = rng.random()
-        if u < 0.3:
+        if u < 0.3 and not multi_:
             # insertion-coded twins: several determinants of one group carry the same partner label
             from .c06 import make_twins
             recs, ntw = make_twins(sources.no_water(recs), rng)
